@@ -2,6 +2,7 @@ package harness
 
 import (
 	"fmt"
+	"reflect"
 	"sort"
 	"time"
 
@@ -207,7 +208,7 @@ func (sc *c09Scenario) Run(s *simrt.Sim) {
 			tq := fpgo.NewBufferedChannelQueue[func()](1, 1, 1)
 			tmpl := worker.NewDefaultWorkerPool(tq, nil)
 			configure(tmpl)
-			st := tmpl.DefaultWorkerPoolSettings
+			st := c09SettingsOf(tmpl)
 			tmpl.SetIsJobQueueClosedWhenClose(true)
 			tmpl.Close()
 			if sc.Ctor == "settings-struct" {
@@ -512,4 +513,14 @@ func why2(s string) string {
 		return "never-started"
 	}
 	return "never-finished"
+}
+
+// c09SettingsOf copies the settings of a pool. The field is read through reflection so that the harness
+// keeps compiling when a change under test turns the embedded struct into a pointer (seeded change C09d).
+func c09SettingsOf(p *worker.DefaultWorkerPool) worker.DefaultWorkerPoolSettings {
+	v := reflect.ValueOf(p).Elem().FieldByName("DefaultWorkerPoolSettings")
+	if v.Kind() == reflect.Ptr {
+		return v.Elem().Interface().(worker.DefaultWorkerPoolSettings)
+	}
+	return v.Interface().(worker.DefaultWorkerPoolSettings)
 }
